@@ -5,7 +5,7 @@ use crate::util::Rng;
 
 /// one class per behaviourally distinct treatment in get_definition / check_composition / build
 pub const CLASSES: [(&str, &[&str]); 33] = [
-    ("value", &["5", "\"a\"", ":s", "$", "()", "$?", "2.5", "'b'"]),
+    ("value", &["5", "\"a\"", ":s", "$", "()", "$?", "2.5", "'b'", "( )"]),
     ("identifier", &["x", "abc"]),
     ("terminator", &[";;"]),
     ("binary", &["+", ".", "==", "<>", "..", "~#", "*", "<", "&", "^^", "#="]),
